@@ -375,3 +375,179 @@ Section Rotation.
     intros c Hc. apply btree_iter_in in Hc as (Hc & _). apply column_rot; auto.
   Qed.
 End Rotation.
+
+(* ---------------------------------------------------------------- mirror *)
+Section Mirror.
+  Context {sig amp zt : Type}.
+  Variable azero : amp.
+  Variable apos : amp -> bool.
+  Variable agt : amp -> amp -> bool.
+  Variable zf : N -> amp -> amp -> amp -> zt.
+  Variable D : list sig -> list (list amp).
+  Variable P : sig -> list amp.
+  Variable sortW : list (N * amp) -> list (N * amp).
+  Variable sortP : list (zt * amp) -> list (zt * amp).
+  Variable zneg : zt -> zt.
+
+  (* assumed of the kernels *)
+  (* the centroid of the mirrored three-row pattern is the negated centroid
+     (z(575 - r) = -z(r), ln(first/last) = -ln(last/first); exact here, to 1e-9 m in binary64:
+     checked numerically by the rel-mir lines of the differential run) *)
+  Hypothesis zf_antisym : forall r f m l, r <= 575 -> zf (575 - r) l m f = zneg (zf r f m l).
+  (* distinct amplitudes are comparable (positive finite floats) *)
+  Hypothesis agt_total : forall a b : amp, a <> b -> agt a b = true \/ agt b a = true.
+  (* sort_unstable_by: a permutation, sorted in descending amplitude; nothing about ties *)
+  Hypothesis sortP_perm : forall l, Permutation (sortP l) l.
+  Definition descP (x y : zt * amp) : Prop := agt (snd y) (snd x) = false.
+  Hypothesis sortP_sorted : forall l, StronglySorted descP (sortP l).
+
+  Notation g := (fun h : zt * amp => (zneg (fst h), snd h)).
+
+  Definition cond3 (f m l : amp) : bool := apos f && apos l && agt m f && agt m l.
+  Definition hit3 (row : N) (f m l : amp) : list (zt * amp) :=
+    if cond3 f m l then [(zf row f m l, m)] else [].
+
+  (* the sliding three-row window of pad_hits_at_t over the amplitudes of one time bin *)
+  Fixpoint win (row : N) (l : list amp) : list (zt * amp) :=
+    match l with
+    | [] => []
+    | f :: tl => match tl with
+                 | m :: la :: _ => hit3 row f m la ++ win (row + 1) tl
+                 | _ => []
+                 end
+    end.
+
+  Lemma pad_loop_win rest row first middle t : 1 <= row ->
+    pad_loop azero apos agt zf rest row first middle t
+    = win (row - 1) (first :: middle :: map (fun i => at_t azero i t) rest).
+  Proof.
+    revert row first middle; induction rest as [|input rest IH]; intros row first middle Hr; cbn; auto.
+    rewrite IH by lia. unfold hit3, cond3. replace (row - 1 + 1) with (row + 1 - 1) by lia.
+    reflexivity.
+  Qed.
+
+  Lemma pad_hits_win col t :
+    pad_hits_at_t azero apos agt zf col t = win 1 (map (fun i => at_t azero i t) col).
+  Proof.
+    destruct col as [|r0 [|r1 rest]]; auto.
+    unfold pad_hits_at_t. rewrite pad_loop_win by lia. reflexivity.
+  Qed.
+
+  Lemma win_snoc3 row l y2 y1 x :
+    win row (l ++ [y2; y1; x]) = win row (l ++ [y2; y1]) ++ hit3 (row + N.of_nat (length l)) y2 y1 x.
+  Proof.
+    revert row; induction l as [|a l IH]; intros row.
+    - cbn. rewrite N.add_0_r, !app_nil_r. reflexivity.
+    - specialize (IH (row + 1)).
+      replace (row + N.of_nat (length (a :: l))) with (row + 1 + N.of_nat (length l)) by (cbn [length]; lia).
+      destruct l as [|b [|c l]].
+      + cbn. rewrite N.add_0_r, !app_nil_r. reflexivity.
+      + cbn [app] in *. cbn [win]. cbn [win] in IH. rewrite IH. rewrite app_assoc. reflexivity.
+      + cbn [app] in *. cbn [win]. cbn [win] in IH. rewrite IH. rewrite app_assoc. reflexivity.
+  Qed.
+
+  Lemma cond3_sym f m l : cond3 l m f = cond3 f m l.
+  Proof. unfold cond3. destruct (apos f), (apos l), (agt m f), (agt m l); reflexivity. Qed.
+
+  Lemma win_rev l row row' : row + row' + N.of_nat (length l) = 578 ->
+    win row' (rev l) = rev (map g (win row l)).
+  Proof.
+    revert row; induction l as [|a l1 IH]; intros row H; auto.
+    destruct l1 as [|b [|c l2]]; auto.
+    specialize (IH (row + 1)).
+    change (rev (a :: b :: c :: l2)) with (((rev l2 ++ [c]) ++ [b]) ++ [a]).
+    rewrite <- !app_assoc. cbn [app]. rewrite win_snoc3.
+    change (rev (b :: c :: l2)) with ((rev l2 ++ [c]) ++ [b]) in IH.
+    rewrite <- !app_assoc in IH. cbn [app] in IH. rewrite IH by (cbn [length] in *; lia).
+    cbn [win]. rewrite map_app, rev_app_distr. f_equal.
+    unfold hit3. rewrite cond3_sym. destruct (cond3 a b c); auto. cbn.
+    rewrite rev_length. cbn [length] in H.
+    replace (row' + N.of_nat (length l2)) with (575 - row) by lia.
+    rewrite zf_antisym by lia. reflexivity.
+  Qed.
+
+  Lemma pad_hits_mirror col t : N.of_nat (length col) = NROWS ->
+    pad_hits_at_t azero apos agt zf (rev col) t = rev (map g (pad_hits_at_t azero apos agt zf col t)).
+  Proof.
+    intros H. rewrite !pad_hits_win, map_rev. apply win_rev.
+    rewrite map_length. unfold NROWS in H. lia.
+  Qed.
+
+  (* a strictly descending list is determined by its multiset *)
+  Lemma sorted_unique (s1 s2 : list (zt * amp)) :
+    StronglySorted descP s1 -> StronglySorted descP s2 -> Permutation s1 s2 ->
+    NoDup (map snd s1) -> s1 = s2.
+  Proof.
+    revert s2; induction s1 as [|x t1 IH]; intros s2 S1 S2 HP ND.
+    - apply Permutation_nil in HP. auto.
+    - destruct s2 as [|y t2]. apply Permutation_sym, Permutation_nil in HP. discriminate.
+      apply StronglySorted_inv in S1 as (S1 & F1). apply StronglySorted_inv in S2 as (S2 & F2).
+      cbn [map] in ND. inversion ND as [|? ? N1 N2]; subst.
+      assert (x = y).
+      { pose proof (Permutation_in x HP (or_introl eq_refl)) as [E|Hx]; auto.
+        pose proof (Permutation_in y (Permutation_sym HP) (or_introl eq_refl)) as [E|Hy]; auto.
+        exfalso. rewrite Forall_forall in F1, F2.
+        pose proof (F1 _ Hy) as R1. pose proof (F2 _ Hx) as R2. unfold descP in *.
+        assert (Hne : snd x <> snd y).
+        { intro E. apply N1. rewrite E. now apply in_map. }
+        destruct (agt_total _ _ Hne) as [G|G]; congruence. }
+      subst y. f_equal. apply IH; auto. eapply Permutation_cons_inv; eauto.
+  Qed.
+
+  Lemma sorted_map_g l : StronglySorted descP l -> StronglySorted descP (map g l).
+  Proof.
+    induction 1; cbn [map]; constructor; auto.
+    rewrite Forall_forall in *. intros y Hy. apply in_map_iff in Hy as (y0 & <- & Hy0).
+    apply H0 in Hy0. exact Hy0.
+  Qed.
+
+  Lemma sortP_mirror ph : NoDup (map snd ph) -> sortP (rev (map g ph)) = map g (sortP ph).
+  Proof.
+    intros ND.
+    assert (HP : Permutation (sortP (rev (map g ph))) (map g ph)).
+    { rewrite sortP_perm. apply Permutation_sym, Permutation_rev. }
+    apply sorted_unique; auto.
+    - apply sorted_map_g; auto.
+    - rewrite HP. apply Permutation_map, Permutation_sym, sortP_perm.
+    - eapply Permutation_NoDup. apply Permutation_sym, (Permutation_map snd HP).
+      rewrite map_map. cbn [snd]. exact ND.
+  Qed.
+
+  Lemma match_mirror idxs inputs pic : N.of_nat (length pic) = NROWS ->
+    (forall t, NoDup (map snd (pad_hits_at_t azero apos agt zf pic t))) ->
+    match_column_inputs azero apos agt zf sortW sortP idxs inputs (rev pic)
+    = map (neg_z zneg) (match_column_inputs azero apos agt zf sortW sortP idxs inputs pic).
+  Proof.
+    intros Hl Hn. unfold match_column_inputs. rewrite map_flat_map. apply flat_map_ext. intros t.
+    destruct (wire_hits_at_t apos idxs inputs t) as [|h wh]; auto.
+    rewrite pad_hits_mirror by auto. rewrite sortP_mirror by auto.
+    rewrite (combine_map_r g), !map_map. apply map_ext.
+    intros [[w wa] [z pa]]. reflexivity.
+  Qed.
+
+  Theorem mirror_equivariant_lemma ws (pads : list (list (option sig))) :
+    Forall (fun col => N.of_nat (length col) = NROWS) pads ->
+    NoPadTie azero apos agt zf P pads ->
+    avalanches azero apos agt zf D P sortW sortP ws (mirror pads)
+    = map (neg_z zneg) (avalanches azero apos agt zf D P sortW sortP ws pads).
+  Proof.
+    intros Hrows Hnt. unfold avalanches. destruct (wire_stage D ws) as [wi bag].
+    rewrite map_flat_map. apply flat_map_ext. intros c.
+    unfold column_avalanches. destruct (pad_column_to_wires c) as [first last].
+    unfold mirror. change (@nil (option sig)) with (rev (@nil (option sig))) at 1.
+    rewrite map_nth. unfold pad_inputs_column at 1. rewrite map_rev.
+    fold (pad_inputs_column P (nth (N.to_nat c) pads [])).
+    destruct (Nat.lt_ge_cases (N.to_nat c) (length pads)) as [L|L].
+    - apply match_mirror.
+      + unfold pad_inputs_column. rewrite map_length.
+        rewrite Forall_forall in Hrows. apply Hrows. now apply nth_In.
+      + intros t. apply Hnt.
+    - rewrite nth_overflow by auto.
+      change (pad_inputs_column P []) with (@nil (list amp)). change (rev (@nil (list amp))) with (@nil (list amp)).
+      assert (E : sortP [] = []) by (apply Permutation_nil, Permutation_sym, sortP_perm).
+      unfold match_column_inputs. rewrite map_flat_map. apply flat_map_ext. intros t.
+      destruct (wire_hits_at_t apos _ _ t); auto.
+      change (pad_hits_at_t azero apos agt zf [] t) with (@nil (zt * amp)).
+      rewrite E, combine_nil. reflexivity.
+  Qed.
+End Mirror.
